@@ -26,13 +26,8 @@ func VerifH_C18_floatToInt_basic() {
 	verifrt.Assert(err == nil, "floatToInt(non-NaN) returns no error")
 	if a >= -9223372036854775808.0 && a < 9223372036854775808.0 {
 		verifrt.Reach("in-range")
-		// truncation toward zero: |r| <= |a| < |r|+1 and same sign
-		f := float64(r)
-		if a >= 0 {
-			verifrt.Assert(f <= a && a-f < 1, "floatToInt truncates toward zero (non-negative)")
-		} else {
-			verifrt.Assert(f >= a && f-a < 1, "floatToInt truncates toward zero (negative)")
-		}
+		// truncation toward zero: the result, as a float, is exactly trunc(a)
+		verifrt.Assert(float64(r) == math.Trunc(a), "floatToInt truncates toward zero")
 	}
 	if math.IsInf(a, 1) {
 		verifrt.Reach("+inf")
@@ -68,4 +63,279 @@ func VerifH_C18_floatToInt_monotonic() {
 	ra, _ := h(a)
 	rb, _ := h(b)
 	verifrt.Assert(ra <= rb, "floatToInt is monotonic")
+}
+
+// intToFloat is the IEEE conversion, and floatToInt inverts it on exactly representable integers.
+func VerifH_C18_intToFloat_roundtrip() {
+	i2f := verifHandler(getIntToFloatFunction()).(func(int64) float64)
+	f2i := verifHandler(getFloatToIntFunction()).(func(float64) (int64, error))
+	x := verifrt.NondetInt64("x")
+	f := i2f(x)
+	verifrt.Assert(f == float64(x), "intToFloat is the nearest-float conversion")
+	if x >= -(1<<53) && x <= 1<<53 {
+		verifrt.Reach("exact")
+		r, err := f2i(f)
+		verifrt.Assert(err == nil, "floatToInt(intToFloat(x)) has no error")
+		verifrt.Assert(r == x, "floatToInt(intToFloat(x)) == x for |x| <= 2^53")
+	}
+}
+
+// floor / ceil / round / abs are wired to functions obeying the declared laws.
+func VerifH_C18_floor_law() {
+	h := verifHandler(getFloorFunction()).(func(float64) float64)
+	x := verifrt.NondetFloat64("x")
+	r := h(x)
+	if x != x {
+		verifrt.Assert(r != r, "floor(NaN) is NaN")
+		return
+	}
+	if math.IsInf(x, 0) {
+		verifrt.Assert(r == x, "floor(±Inf) = ±Inf")
+		return
+	}
+	verifrt.Reach("finite")
+	verifrt.Assert(r <= x, "floor(x) <= x")
+	verifrt.Assert(x < r+1 || x == r, "x < floor(x) + 1")
+	verifrt.Assert(math.Trunc(r) == r, "floor(x) is integral")
+}
+
+func VerifH_C18_ceil_law() {
+	h := verifHandler(getCeilFunction()).(func(float64) float64)
+	x := verifrt.NondetFloat64("x")
+	r := h(x)
+	if x != x {
+		verifrt.Assert(r != r, "ceil(NaN) is NaN")
+		return
+	}
+	if math.IsInf(x, 0) {
+		verifrt.Assert(r == x, "ceil(±Inf) = ±Inf")
+		return
+	}
+	verifrt.Reach("finite")
+	verifrt.Assert(r >= x, "ceil(x) >= x")
+	verifrt.Assert(x > r-1 || x == r, "x > ceil(x) - 1")
+	verifrt.Assert(math.Trunc(r) == r, "ceil(x) is integral")
+}
+
+func VerifH_C18_round_law() {
+	h := verifHandler(getRoundFunction()).(func(float64) float64)
+	x := verifrt.NondetFloat64("x")
+	r := h(x)
+	if x != x {
+		verifrt.Assert(r != r, "round(NaN) is NaN")
+		return
+	}
+	if math.IsInf(x, 0) {
+		verifrt.Assert(r == x, "round(±Inf) = ±Inf")
+		return
+	}
+	verifrt.Reach("finite")
+	verifrt.Assert(math.Trunc(r) == r, "round(x) is integral")
+	d := r - x
+	verifrt.Assert(d <= 0.5 && d >= -0.5, "|round(x) - x| <= 0.5")
+	if x-math.Trunc(x) == 0.5 {
+		verifrt.Reach("tie+")
+		verifrt.Assert(r == math.Trunc(x)+1, "round half away from zero (positive tie)")
+	}
+	if x-math.Trunc(x) == -0.5 {
+		verifrt.Reach("tie-")
+		verifrt.Assert(r == math.Trunc(x)-1, "round half away from zero (negative tie)")
+	}
+}
+
+func VerifH_C18_abs_law() {
+	h := verifHandler(getAbsFunction()).(func(float64) float64)
+	x := verifrt.NondetFloat64("x")
+	r := h(x)
+	if x != x {
+		verifrt.Assert(r != r, "abs(NaN) is NaN")
+		return
+	}
+	verifrt.Reach("non-nan")
+	verifrt.Assert(r >= 0, "abs(x) >= 0")
+	verifrt.Assert(r == x || r == -x, "abs(x) is x or -x")
+}
+
+// intToString / stringToInt: round trip identity; parse failure is an error, never a fault.
+func VerifH_C18_intToString_roundtrip() {
+	i2s := verifHandler(getIntToStringFunction()).(func(int64) string)
+	s2i := verifHandler(getStringToIntFunction()).(func(string) (int64, error))
+	x := verifrt.NondetInt64("x")
+	s := i2s(x)
+	r, err := s2i(s)
+	verifrt.Assert(err == nil, "stringToInt(intToString(x)) has no error")
+	verifrt.Assert(r == x, "stringToInt(intToString(x)) == x")
+}
+
+func verifParamPattern(f schema.CallableFunction, i int) string {
+	return f.(*schema.CallableFunctionSchema).InputsValue[i].(*schema.StringSchema).PatternValue.String()
+}
+
+func verifOutputPattern(f schema.CallableFunction) string {
+	return f.(*schema.CallableFunctionSchema).StaticOutputValue.(*schema.StringSchema).PatternValue.String()
+}
+
+// Literals admitted by stringToInt's declared parameter pattern at the edges of the int64 range:
+// in range => the value, out of range => an error (never a fault, never a wrapped-around value).
+func VerifH_C18_stringToInt_edges() {
+	fn := getStringToIntFunction()
+	s2i := verifHandler(fn).(func(string) (int64, error))
+	lits := []string{"9223372036854775807", "-9223372036854775808", "-0", "007", "9223372036854775808", "-9223372036854775809", "99999999999999999999999"}
+	want := []int64{9223372036854775807, -9223372036854775808, 0, 7}
+	k := verifrt.Choice("literal", len(lits))
+	verifrt.Assert(verifrt.MatchGoRegex(lits[k], verifParamPattern(fn, 0)), "literal admitted by the parameter pattern")
+	r, err := s2i(lits[k])
+	if k < len(want) {
+		verifrt.Assert(err == nil && r == want[k], "stringToInt parses in-range literal")
+	} else {
+		verifrt.Reach("out-of-range")
+		verifrt.Assert(err != nil, "stringToInt reports out-of-range literal as an error")
+	}
+}
+
+// boolToString / stringToBool.
+func VerifH_C18_bool_roundtrip() {
+	fn := getBooleanToStringFunction()
+	b2s := verifHandler(fn).(func(bool) string)
+	s2b := verifHandler(getStringToBoolFunction()).(func(string) (bool, error))
+	b := verifrt.NondetBool("b")
+	s := b2s(b)
+	verifrt.Assert(verifrt.MatchGoRegex(s, verifOutputPattern(fn)), "boolToString output matches its declared pattern")
+	r, err := s2b(s)
+	verifrt.Assert(err == nil, "stringToBool(boolToString(b)) has no error")
+	verifrt.Assert(r == b, "stringToBool(boolToString(b)) == b")
+}
+
+// Every string admitted by stringToBool's declared parameter pattern parses without error, to the documented value.
+func VerifH_C18_stringToBool_total() {
+	fn := getStringToBoolFunction()
+	s2b := verifHandler(fn).(func(string) (bool, error))
+	s := verifrt.NondetString("s")
+	verifrt.Assume(verifrt.MatchGoRegex(s, verifParamPattern(fn, 0)))
+	r, err := s2b(s)
+	verifrt.Assert(err == nil, "stringToBool accepts every string its parameter schema admits")
+	first := verifrt.MatchGoRegex(s, "^[tT1]")
+	verifrt.Assert(r == first, "stringToBool value is true exactly for 1/t/true (any case)")
+}
+
+// toLower / toUpper on bounded ASCII strings: length preserved, idempotent, inverse on letters-free strings.
+func VerifH_C18_case_laws() {
+	lo := verifHandler(getToLowerFunction()).(func(string) string)
+	up := verifHandler(getToUpperFunction()).(func(string) string)
+	s := verifrt.NondetString("s")
+	l := lo(s)
+	u := up(s)
+	verifrt.Assert(len(l) == len(s), "toLower preserves length (ASCII)")
+	verifrt.Assert(len(u) == len(s), "toUpper preserves length (ASCII)")
+	verifrt.Assert(!verifrt.MatchGoRegex(l, "[A-Z]"), "toLower output has no upper-case ASCII letter")
+	verifrt.Assert(!verifrt.MatchGoRegex(u, "[a-z]"), "toUpper output has no lower-case ASCII letter")
+	verifrt.Assert(lo(l) == l, "toLower is idempotent")
+	verifrt.Assert(up(u) == u, "toUpper is idempotent")
+	verifrt.Assert(lo(u) == l, "toLower(toUpper(s)) == toLower(s)")
+}
+
+// floatToString: the produced text conforms to the declared output pattern.
+func VerifH_C18_floatToString_pattern() {
+	fn := getFloatToStringFunction()
+	h := verifHandler(fn).(func(float64) string)
+	pat := verifOutputPattern(fn)
+	a := verifrt.NondetFloat64("a")
+	out := h(a)
+	ok := verifrt.MatchGoRegex(out, pat)
+	switch {
+	case a != a:
+		verifrt.Assert(ok, "floatToString output matches declared pattern (NaN)")
+	case math.IsInf(a, 0):
+		verifrt.Assert(ok, "floatToString output matches declared pattern (infinities)")
+	case a < 0 || (a == 0 && math.Signbit(a)):
+		verifrt.Assert(ok, "floatToString output matches declared pattern (negative)")
+	case math.Trunc(a) == a:
+		verifrt.Assert(ok, "floatToString output matches declared pattern (integral value)")
+	default:
+		verifrt.Reach("fraction")
+		verifrt.Assert(ok, "floatToString output matches declared pattern (positive non-integral)")
+	}
+}
+
+var verifVerbs = []string{"f", "e", "E", "g", "G"}
+var verifPrecs = []int64{-1, 0, 2}
+
+// floatToFormattedString: output conforms to the declared pattern for the decimal verbs (symbolic value).
+func VerifH_C18_floatToFormattedString_pattern() {
+	fn := getFloatToFormattedStringFunction()
+	h := verifHandler(fn).(func(float64, string, int64) string)
+	pat := verifOutputPattern(fn)
+	verb := verifVerbs[verifrt.Choice("verb", len(verifVerbs))]
+	verifrt.Assert(verifrt.MatchGoRegex(verb, verifParamPattern(fn, 1)), "verb admitted by parameter pattern")
+	prec := verifPrecs[verifrt.Choice("prec", len(verifPrecs))]
+	a := verifrt.NondetFloat64("a")
+	out := h(a, verb, prec)
+	ok := verifrt.MatchGoRegex(out, pat)
+	switch {
+	case a != a:
+		verifrt.Assert(ok, "floatToFormattedString output matches declared pattern (NaN)")
+	case math.IsInf(a, 0):
+		verifrt.Assert(ok, "floatToFormattedString output matches declared pattern (infinities)")
+	default:
+		verifrt.Reach("finite")
+		verifrt.Assert(ok, "floatToFormattedString output matches declared pattern (finite, verb "+verb+")")
+	}
+}
+
+// floatToFormattedString with the hexadecimal verbs on concrete probes (digits are not modelled symbolically).
+func VerifH_C18_floatToFormattedString_hex() {
+	fn := getFloatToFormattedStringFunction()
+	h := verifHandler(fn).(func(float64, string, int64) string)
+	pat := verifOutputPattern(fn)
+	vals := []float64{1, 1.5, 1.625, 0.1, -2.75, 1e300, 5e-324, 4503599627370496}
+	v := vals[verifrt.Choice("value", len(vals))]
+	verb := []string{"x", "X", "b"}[verifrt.Choice("verb", 3)]
+	out := h(v, verb, -1)
+	verifrt.Assert(verifrt.MatchGoRegex(out, pat), "floatToFormattedString output matches declared pattern (verb "+verb+", concrete probes)")
+}
+
+// bindConstants pairs every item with the constant, in order.
+func VerifH_C18_bindConstants() {
+	h := verifHandler(getBindConstantsFunction()).(func([]any, any) (any, error))
+	n := verifrt.Choice("n", 4)
+	items := make([]any, n)
+	for i := range items {
+		items[i] = verifrt.NondetVal("item")
+	}
+	c := any(verifrt.NondetVal("c"))
+	out, err := h(items, c)
+	verifrt.Assert(err == nil, "bindConstants returns no error")
+	lst, ok := out.([]any)
+	verifrt.Assert(ok, "bindConstants returns a list")
+	verifrt.Assert(len(lst) == n, "bindConstants preserves length")
+	for i := range lst {
+		m, ok := lst[i].(map[string]any)
+		verifrt.Assert(ok, "bindConstants element is an object")
+		verifrt.Assert(len(m) == 2, "bindConstants element has exactly two properties")
+		verifrt.Assert(m[CombinedObjPropertyItemName] == items[i], "bindConstants item k is input item k")
+		verifrt.Assert(m[CombinedObjPropertyConstantName] == c, "bindConstants constant is the constant")
+	}
+}
+
+// The dynamic type handler rejects wrong arity / non-list first argument with an error, not a fault.
+func VerifH_C18_bindConstants_type() {
+	types := []schema.Type{schema.NewIntSchema(nil, nil, nil), schema.NewListSchema(schema.NewIntSchema(nil, nil, nil), nil, nil), nil}
+	n := verifrt.Choice("arity", 4)
+	in := make([]schema.Type, n)
+	for i := range in {
+		in[i] = types[verifrt.Choice("type", len(types))]
+	}
+	t, err := HandleTypeSchemaCombine(in)
+	wellFormed := false
+	if n == 2 {
+		_, wellFormed = in[0].(*schema.ListSchema)
+	}
+	if wellFormed && in[1] != nil {
+		verifrt.Reach("accepted")
+		verifrt.Assert(err == nil && t != nil, "HandleTypeSchemaCombine accepts (list, T)")
+	}
+	if !wellFormed {
+		verifrt.Reach("rejected")
+		verifrt.Assert(err != nil, "HandleTypeSchemaCombine rejects ill-formed parameter lists with an error")
+	}
 }
